@@ -26,6 +26,241 @@ def load_known():
         return None
 
 
+def load_known_combinators():
+    try:
+        with open(KNOWN) as fh:
+            return {k: set(v) for k, v in json.load(fh).get("combinators", {}).items()}
+    except (OSError, ValueError, KeyError):
+        return {}
+
+
+# --------------------------------------------------------------------------------------------
+# Option / Result combinators lowered to the `match` they stand for
+# --------------------------------------------------------------------------------------------
+# A refactoring between `match` / `if let` / `?` and the combinator spelling of the same decision (`and_then`, `or_else`, `map_or`, ...)
+# changes nothing a user can observe, but it moves the decision out of the control-flow graph into std and the arms into closures.
+# Combinator calls a function did not already make on the pinned tree (oracles/known_fns.json: "combinators") are therefore rewritten
+# into a switch on the receiver's discriminant; closure arguments are inlined at the arm that calls them.
+# Per input variant: ("call", arg index of F, passes payload, wrap result in variant or None) | ("wrap", variant) re-wraps the payload |
+# ("unit", variant) a field-less variant | ("payload",) the payload itself | ("arg", i) the i-th argument | ("lit", v) a constant.
+OPT, RES = "std::option::Option", "std::result::Result"
+COMBINATORS = {
+    "std::option::Option::<T>::and_then": (OPT, {"Some": ("call", 1, True, None), "None": ("unit", OPT, "None")}),
+    "std::option::Option::<T>::or_else": (OPT, {"Some": ("wrap", OPT, "Some"), "None": ("call", 1, False, None)}),
+    "std::option::Option::<T>::map": (OPT, {"Some": ("call", 1, True, (OPT, "Some")), "None": ("unit", OPT, "None")}),
+    "std::option::Option::<T>::unwrap_or_else": (OPT, {"Some": ("payload",), "None": ("call", 1, False, None)}),
+    "std::option::Option::<T>::unwrap_or": (OPT, {"Some": ("payload",), "None": ("arg", 1)}),
+    "std::option::Option::<T>::map_or": (OPT, {"Some": ("call", 2, True, None), "None": ("arg", 1)}),
+    "std::option::Option::<T>::map_or_else": (OPT, {"Some": ("call", 2, True, None), "None": ("call", 1, False, None)}),
+    "std::option::Option::<T>::ok_or": (OPT, {"Some": ("wrap", RES, "Ok"), "None": ("wraparg", RES, "Err", 1)}),
+    "std::option::Option::<T>::ok_or_else": (OPT, {"Some": ("wrap", RES, "Ok"), "None": ("call", 1, False, (RES, "Err"))}),
+    "std::option::Option::<T>::is_some_and": (OPT, {"Some": ("call", 1, True, None), "None": ("lit", False)}),
+    "std::option::Option::<T>::is_none_or": (OPT, {"Some": ("call", 1, True, None), "None": ("lit", True)}),
+    "std::result::Result::<T, E>::map": (RES, {"Ok": ("call", 1, True, (RES, "Ok")), "Err": ("wrap", RES, "Err")}),
+    "std::result::Result::<T, E>::map_err": (RES, {"Ok": ("wrap", RES, "Ok"), "Err": ("call", 1, True, (RES, "Err"))}),
+    "std::result::Result::<T, E>::and_then": (RES, {"Ok": ("call", 1, True, None), "Err": ("wrap", RES, "Err")}),
+    "std::result::Result::<T, E>::or_else": (RES, {"Ok": ("wrap", RES, "Ok"), "Err": ("call", 1, True, None)}),
+    "std::result::Result::<T, E>::unwrap_or_else": (RES, {"Ok": ("payload",), "Err": ("call", 1, True, None)}),
+    "std::result::Result::<T, E>::unwrap_or": (RES, {"Ok": ("payload",), "Err": ("arg", 1)}),
+    "std::result::Result::<T, E>::map_or": (RES, {"Ok": ("call", 2, True, None), "Err": ("arg", 1)}),
+    "std::result::Result::<T, E>::map_or_else": (RES, {"Ok": ("call", 2, True, None), "Err": ("call", 1, True, None)}),
+    "std::result::Result::<T, E>::ok": (RES, {"Ok": ("wrap", OPT, "Some"), "Err": ("unit", OPT, "None")}),
+    "std::result::Result::<T, E>::err": (RES, {"Ok": ("unit", OPT, "None"), "Err": ("wrap", OPT, "Some")}),
+    "std::result::Result::<T, E>::is_ok_and": (RES, {"Ok": ("call", 1, True, None), "Err": ("lit", False)}),
+    "std::result::Result::<T, E>::is_err_and": (RES, {"Ok": ("lit", False), "Err": ("call", 1, True, None)}),
+}
+VIDX = {(OPT, "None"): 0, (OPT, "Some"): 1, (RES, "Ok"): 0, (RES, "Err"): 1}
+CTORS = {"std::prelude::v1::Some": (OPT, "Some"), "std::prelude::v1::Ok": (RES, "Ok"), "std::prelude::v1::Err": (RES, "Err")}
+
+
+def owner_fn(path):
+    """The function a closure / coroutine / promoted body belongs to."""
+    for marker in ("::{closure#", "::{coroutine#", "::promoted[", "::{constant#"):
+        i = path.find(marker)
+        if i >= 0:
+            path = path[:i]
+    return path
+
+
+def combinator_of(t):
+    for name in (t.get("resolved"), t.get("callee")):
+        if name in COMBINATORS:
+            return name
+    return None
+
+
+def _agg(adt, variant, ops):
+    return {"k": "agg", "agg": "adt", "adt": adt, "variant": variant, "vidx": VIDX[(adt, variant)], "fields": ["0"] if ops else [], "ops": ops}
+
+
+def _mv(l):
+    return {"k": "move", "pl": {"l": l, "p": []}}
+
+
+def _closure_def(raw, op):
+    """(closure def path, local holding the closure) when operand `op` is a closure value built in this body, else None."""
+    if not op or op.get("k") not in ("move", "copy") or op["pl"]["p"]:
+        return None
+    l = op["pl"]["l"]
+    found = None
+    for blk in raw["blocks"]:
+        for st in blk["stmts"]:
+            if "pl" in st and st["pl"]["l"] == l and not st["pl"]["p"]:
+                rv = st["rv"]
+                if rv.get("k") == "agg" and rv.get("agg") == "closure" and rv.get("def"):
+                    if found is not None:
+                        return None
+                    found = rv["def"]
+                else:
+                    return None
+        t = blk["term"]
+        if t and t.get("k") == "call" and t.get("dest") and t["dest"]["l"] == l and not t["dest"]["p"]:
+            return None
+    return (found, l) if found else None
+
+
+def lower_body(raws, path, raw, skip):
+    """Rewrites the combinator calls of one body (those not in `skip`); returns (new_raw, [lowered callee names])."""
+    out = None
+    done = []
+    bi = 0
+    while bi < len((out or raw)["blocks"]):
+        cur = out or raw
+        blk = cur["blocks"][bi]
+        t = blk["term"]
+        bi += 1
+        if not t or t.get("k") != "call" or blk.get("cleanup"):
+            continue
+        name = combinator_of(t)
+        if name is None or name in skip or t.get("target") is None or t.get("dest") is None:
+            continue
+        adt, arms = COMBINATORS[name]
+        args = t["args"]
+        recv = args[0]
+        if recv.get("k") not in ("move", "copy"):
+            continue
+        # every closure argument must be a closure of this crate built in this body, or a function item
+        plan = {}
+        ok = True
+        for variant, act in arms.items():
+            if act[0] != "call":
+                continue
+            if act[1] >= len(args):
+                ok = False
+                break
+            f = args[act[1]]
+            if f.get("k") == "const" and f.get("fn"):
+                plan[variant] = ("fn", f["fn"])
+                continue
+            cd = _closure_def(cur, f)
+            if cd is None or cd[0] not in raws or raws[cd[0]].get("argc") != (2 if act[2] else 1):
+                ok = False
+                break
+            if any(b["term"] and b["term"]["k"] == "yield" for b in raws[cd[0]]["blocks"]):
+                ok = False
+                break
+            plan[variant] = ("closure", cd[0], cd[1])
+        if not ok or any(a[0] in ("arg", "wraparg") and a[-1] >= len(args) for a in arms.values()):
+            continue
+        if out is None:
+            out = copy.deepcopy(raw)
+            cur = out
+            blk = cur["blocks"][bi - 1]
+            t = blk["term"]
+            args = t["args"]
+            recv = args[0]
+        line = t.get("line", cur.get("line"))
+        dest, target, unwind = t["dest"], t["target"], t.get("unwind")
+
+        def new_local(ty):
+            cur["locals"].append({"ty": ty})
+            return len(cur["locals"]) - 1
+
+        def new_block(stmts, term):
+            cur["blocks"].append({"cleanup": False, "stmts": stmts, "term": term, "lowered": name})
+            return len(cur["blocks"]) - 1
+        # the receiver is kept in a fresh local so that the arms can project out of it
+        x = new_local((t.get("arg_tys") or ["_"])[0])
+        d = new_local("isize")
+        arm_blocks = {}
+        for variant, act in arms.items():
+            vi = VIDX[(adt, variant)]
+            has_payload = not (adt == OPT and variant == "None")
+            payload = None
+            stmts = []
+            if has_payload and (act[0] in ("wrap", "payload") or (act[0] == "call" and act[2])):
+                payload = new_local("_")
+                stmts.append({"pl": {"l": payload, "p": []}, "rv": {"k": "use", "o": {"k": "move", "pl": {"l": x, "p": [["dc", variant, vi], ["f", 0, "_"]]}}}, "line": line})
+            goto_t = {"k": "goto", "target": target, "line": line}
+            if act[0] == "wrap":
+                stmts.append({"pl": copy.deepcopy(dest), "rv": _agg(act[1], act[2], [_mv(payload)]), "line": line})
+                arm_blocks[variant] = new_block(stmts, goto_t)
+            elif act[0] == "unit":
+                stmts.append({"pl": copy.deepcopy(dest), "rv": _agg(act[1], act[2], []), "line": line})
+                arm_blocks[variant] = new_block(stmts, goto_t)
+            elif act[0] == "payload":
+                stmts.append({"pl": copy.deepcopy(dest), "rv": {"k": "use", "o": _mv(payload)}, "line": line})
+                arm_blocks[variant] = new_block(stmts, goto_t)
+            elif act[0] == "arg":
+                stmts.append({"pl": copy.deepcopy(dest), "rv": {"k": "use", "o": copy.deepcopy(args[act[1]])}, "line": line})
+                arm_blocks[variant] = new_block(stmts, goto_t)
+            elif act[0] == "wraparg":
+                stmts.append({"pl": copy.deepcopy(dest), "rv": _agg(act[1], act[2], [copy.deepcopy(args[act[3]])]), "line": line})
+                arm_blocks[variant] = new_block(stmts, goto_t)
+            elif act[0] == "lit":
+                stmts.append({"pl": copy.deepcopy(dest), "rv": {"k": "use", "o": {"k": "const", "ty": "bool", "v": act[1], "repr": "const " + str(act[1]).lower()}}, "line": line})
+                arm_blocks[variant] = new_block(stmts, goto_t)
+            else:
+                wrap = act[3]
+                res = new_local("_")
+                fin = [{"pl": copy.deepcopy(dest), "rv": (_agg(wrap[0], wrap[1], [_mv(res)]) if wrap else {"k": "use", "o": _mv(res)}), "line": line}]
+                ret_b = new_block(fin, goto_t)
+                pl = plan[variant]
+                if pl[0] == "fn":
+                    if pl[1] in CTORS:
+                        c = CTORS[pl[1]]
+                        stmts.append({"pl": {"l": res, "p": []}, "rv": _agg(c[0], c[1], [_mv(payload)] if payload is not None else []), "line": line})
+                        arm_blocks[variant] = new_block(stmts, {"k": "goto", "target": ret_b, "line": line})
+                    else:
+                        call = {"k": "call", "callee": pl[1], "resolved": pl[1], "local": pl[1] in raws, "resolved_local": pl[1] in raws,
+                                "args": [_mv(payload)] if payload is not None else [], "arg_tys": ["_"] if payload is not None else [],
+                                "dest": {"l": res, "p": []}, "target": ret_b, "unwind": unwind, "line": line, "fn_line": line}
+                        arm_blocks[variant] = new_block(stmts, call)
+                else:
+                    callee = raws[pl[1]]
+                    off_l, off_b = len(cur["locals"]), len(cur["blocks"])
+                    cur["locals"].extend(copy.deepcopy(callee["locals"]))
+                    nbs = _renumber(callee["blocks"], off_l, off_b)
+                    for nb in nbs:
+                        nb["file"] = callee.get("file")
+                        nb["from_closure"] = pl[1]
+                        if nb["term"] and nb["term"]["k"] == "return":
+                            nb["term"] = {"k": "goto", "target": -1, "line": nb["term"].get("line", line)}
+                    cur["blocks"].extend(nbs)
+                    # return value of the closure -> res
+                    fin_c = new_block([{"pl": {"l": res, "p": []}, "rv": {"k": "use", "o": _mv(off_l)}, "line": line}], {"k": "goto", "target": ret_b, "line": line})
+                    for nb in nbs:
+                        if nb["term"] and nb["term"]["k"] == "goto" and nb["term"]["target"] == -1:
+                            nb["term"]["target"] = fin_c
+                    env_ty = callee["locals"][1]["ty"] if len(callee["locals"]) > 1 else ""
+                    if env_ty.startswith("&"):
+                        stmts.append({"pl": {"l": off_l + 1, "p": []}, "rv": {"k": "ref", "mut": env_ty.startswith("&mut"), "pl": {"l": pl[2], "p": []}}, "line": line})
+                    else:
+                        stmts.append({"pl": {"l": off_l + 1, "p": []}, "rv": {"k": "use", "o": _mv(pl[2])}, "line": line})
+                    if act[2]:
+                        stmts.append({"pl": {"l": off_l + 2, "p": []}, "rv": {"k": "use", "o": _mv(payload)}, "line": line})
+                    arm_blocks[variant] = new_block(stmts, {"k": "goto", "target": off_b, "line": line, "inlined": pl[1]})
+        blk["stmts"] = blk["stmts"] + [{"pl": {"l": x, "p": []}, "rv": {"k": "use", "o": copy.deepcopy(recv)}, "line": line},
+                                       {"pl": {"l": d, "p": []}, "rv": {"k": "discr", "pl": {"l": x, "p": []}}, "line": line}]
+        variants = list(arms)
+        v1 = next(v for v in variants if VIDX[(adt, v)] == 1)
+        v0 = next(v for v in variants if VIDX[(adt, v)] == 0)
+        blk["term"] = {"k": "switch", "discr": _mv(d), "targets": [[0, arm_blocks[v0]], [1, arm_blocks[v1]]], "otherwise": arm_blocks[v1],
+                       "discr_ty": "isize", "line": line, "lowered": name}
+        done.append(name)
+    return (out if out is not None else raw), done
+
+
 def _renumber(x, off_l, off_b):
     """Deep copy of a MIR JSON fragment with locals and block ids shifted."""
     if isinstance(x, dict):
@@ -131,9 +366,24 @@ def apply(prog, Body):
     prog.new_functions = []
     if known is None:
         return
+    known_combs = load_known_combinators()
+    prog.lowered = {}
     for table_name in ("bodies", "elab"):
         table = getattr(prog, table_name)
         raws = {p: b.raw for p, b in table.items()}
+        # closures first, so that a closure inlined into its parent has already been lowered itself
+        for p in sorted(table, key=lambda q: -q.count("::{closure#")):
+            b = table[p]
+            if b.kind not in ("fn", "method", "closure", "coroutine"):
+                continue
+            owner = owner_fn(p)
+            skip = known_combs.get(owner, set()) if owner in known else set()
+            new_raw, done = lower_body(raws, p, b.raw, skip)
+            if done:
+                raws[p] = new_raw
+                table[p] = Body(p, new_raw, b.crate, b.config, elab=b.elab)
+                if table_name == "bodies":
+                    prog.lowered[p] = done
         new_fns = sorted(p for p, r in raws.items() if p not in known and r.get("kind") in ("fn", "method", "assoc_fn", "assocfn", "function"))
         if table_name == "bodies":
             prog.new_functions = new_fns
